@@ -86,9 +86,13 @@ def confirm(ctx, findings, clauses):
         ctx.violation(sig, what(same[0]), {"behaviours": [f["beh"]]})
 
 
-def generate(ctx):
-    sim = vlib.tlc_sim(ctx, "Dualstaking", "Dualstaking_sim.cfg", num=ctx.pick(150, 1500), depth=15, timeout=1800)
-    return sim["behaviours"]
+def generate(ctx, keep_slash=False):
+    sim = vlib.tlc_sim(ctx, "Dualstaking", "Dualstaking_sim.cfg", num=ctx.pick(120, 1500), depth=15, timeout=1800)
+    behs = sim["behaviours"]
+    if not keep_slash:
+        # C07 quantifies over stake / modify / move / unstake / delegate / redelegate / unbond histories
+        behs = [[s for s in b if s["op"] not in ("slash", "cancelunbond")] for b in behs]
+    return behs
 
 
 def run(ctx):
@@ -97,7 +101,12 @@ def run(ctx):
         raise vlib.Infra("design-level spec violates %s; spec must be repaired (see %s)" % (mc["violated"], mc["outfile"]))
     ctx.add_mc("Dualstaking exhaustive (metadata / self-stake / total-delegations / mirror)", mc)
     dt = vlib.tlc_mc(ctx, "Dualstaking", "Dualstaking_mcq_dt.cfg", timeout=900, tag="Dualstaking_dt")
-    ctx.notes.append("design level: delegate-total / frozen clauses on the transcription: %s (candidate only)" % (dt["violated"] or "hold"))
+    ctx.notes.append("design level, code as it is: self-stake / delegate-total / frozen clauses: %s (candidate only)" % (dt["violated"] or "hold"))
+    fx = vlib.tlc_mc(ctx, "Dualstaking", ctx.pick("Dualstaking_fixed_mcq.cfg", "Dualstaking_fixed_mc.cfg"), timeout=ctx.pick(900, 5400),
+                     tag="Dualstaking_fixed")
+    if fx["violated"]:
+        raise vlib.Infra("design-level spec of the repaired code violates %s (see %s)" % (fx["violated"], fx["outfile"]))
+    ctx.add_mc("Dualstaking exhaustive, Fixed = TRUE (all C07 clauses)", fx)
     behs = generate(ctx)
     ctx.cov["evaluations"] = len(behs)
     ctx.cov["distinct_nontrivial"] = len({vlib.json.dumps(b) for b in behs
@@ -121,7 +130,7 @@ def run(ctx):
             len(st["drift"]), st["drift"][0][0], st["drift"][0][1] - 1, st["drift"][0][2]))
     need = ctx.pick(15, 150)
     for op in ("stake", "move", "unstakeV", "unstakeP", "dsdelegate", "dsunbond", "dsredelegate"):
-        if st["ok_ops"].get(op, 0) < need:
+        if st["ok_ops"].get(op, 0) < (need if op != "move" else max(3, need // 5)):
             raise vlib.Infra("vacuous: only %d accepted %s operations" % (st["ok_ops"].get(op, 0), op))
     confirm(ctx, findings, CLAUSES)
 
